@@ -56,6 +56,19 @@ def _check_main(ctx):
                 exact = u["multiple"][2] != "float"
                 if got is None or (got != want if exact else abs(got - want) > Fraction(1, 10**9) * max(1, abs(want))):
                     ctx.violation("signed-literal:" + text, text, str(want), repr((k, v)), "execute(%r)" % text)
+    # a float LITERAL with an integral value is an exact integer however large (1.5e20 is 150000000000000000000): under a unit with
+    # a rational factor the magnitude is exact, `x U to U` is x, the round trip is x, q/3 divides exactly
+    for lit, val in [("1.5e20", 15 * 10**19), ("2.5e22", 25 * 10**21), ("6.02214076e23", 602214076 * 10**15), ("1.25e17", 125 * 10**15), ("9007199254740993.0", 9007199254740993)]:
+        val = int(float(lit))          # the literal denotes the nearest double — an integer here —, and that integer is kept exactly
+        for un, f in [("km", 1000), ("week", 604800), ("min", 60), ("t", 1000), ("KiB", 8192), ("h", 3600)]:
+            for text, want in [("%s %s" % (lit, un), Fraction(val) * f), ("%s %s to %s" % (lit, un, un), Fraction(val)),
+                               ("(%s %s) / 3" % (lit, un), Fraction(val) * f / 3), ("(%s %s to %s) %s to %s" % (lit, un, un, un, un), Fraction(val))]:
+                k, v = R.value(text)
+                ctx.count(text, bucket="float-literal-beyond-2^53")
+                got = Fraction(v.mag) if (k == "ok" and isinstance(v, T.Quantity)) else (Fraction(v) if k == "ok" and not isinstance(v, bool) else None)
+                isf = isinstance(v.mag if (k == "ok" and isinstance(v, T.Quantity)) else v, float)
+                if got != want or isf:
+                    ctx.violation("qty-mag-exact:" + text, text, str(want), repr((k, v))[:200], "execute(%r)" % text)
     # the magnitude that CANCELS the offset (absolute zero: -273.15 degC, -459.67 degF), as a float and as an exact fraction: the
     # base value is 0 (0 K) — a value, like every other one — and `x U to U` is x
     for u in phys:
